@@ -58,7 +58,9 @@ class View:
 def take_view(world) -> View:
     c = world.conn
     v = View()
-    rows = c.execute("SELECT id,status,is_canceled,context,start_time,end_time FROM pipeline_executions").fetchall()
+    # a bystander workflow (application 'verif-decoy': stored, never started) may share the database
+    rows = c.execute("SELECT id,status,is_canceled,context,start_time,end_time FROM pipeline_executions "
+                     "WHERE application != 'verif-decoy'").fetchall()
     if len(rows) != 1:
         raise RuntimeError("harness: expected exactly one workflow")
     w = rows[0]
@@ -67,7 +69,7 @@ def take_view(world) -> View:
     labels = {w["id"]: "W"}
     srows = c.execute(
         "SELECT id,ref_id,name,status,context,outputs,start_time,end_time,parent_stage_id,synthetic_stage_owner,"
-        "requisite_stage_ref_ids FROM stage_executions ORDER BY rowid"
+        "requisite_stage_ref_ids FROM stage_executions WHERE execution_id = ? ORDER BY rowid", (w["id"],)
     ).fetchall()
     byid = {r["id"]: r for r in srows}
 
@@ -104,6 +106,8 @@ def take_view(world) -> View:
         }
     v.task_ids = {}
     for r in c.execute("SELECT id,stage_id,name,status,start_time FROM task_executions ORDER BY id"):
+        if r["stage_id"] not in byid:
+            continue  # a task of the bystander workflow
         slab = labels.get(r["stage_id"], "?")
         st = v.stages.get(slab)
         tl = f"{slab}#{r['name']}"
